@@ -84,3 +84,13 @@ claim("C16", "other",
       "Stopwatch readings reach only the limit comparison and EmulationInfo.duration; no field written by sound generation is read outside its call closure; AY port-visible registers are not written by generation; read() only behind read_exact/adapters and read_exact tolerates short reads; no nondeterministic API outside the host stopwatch.",
       "Not decided: bit-identical audio under different drain patterns (excluded by the statement). The call graph over-approximates unresolved trait calls with generic Self.",
       "DESIGN.md §3 C16")
+claim("C13", "other",
+      "path-sensitive interpretation of sna::save and sna::load with the asset/recorder as effects: offset<->role tables through the exx/swap choreography, RAII guard pairing on every exit, must-definition of CPU execution state and paging latch/lock",
+      "SNA header maps for save and load, side-effect freedom of save on every exit (registers, stack bytes, no bus time), load independence from the receiving machine's state (halt, EI, prefix, paging lock), bank order, PC on stack (48K) / extension (128K).",
+      "Not decided: RAM contents byte for byte (opaque asset bytes). Both machines, all recorder/asset failure points.",
+      "DESIGN.md §3 C13")
+claim("C14", "other",
+      "path-sensitive interpretation of the three loaders (one SZX chunk per path): model-guard dominance, chunk layout tables by term equivalence, must-definition per chunk arm, pairing of AY register stores with generator writes",
+      "Model guards of SNA/SZX/SCR, Z80R 37-byte map incl. flags and execution state, SPCR paging/lock/border/speaker without emulated time, AMXM, RAMP renumbering and page existence, unknown chunks inert, AY set_regs forwarding, SCR target page and refresh.",
+      "Not decided: equality of behaviour of two encodings, zlib correctness, KEYB (not listed by the statement).",
+      "DESIGN.md §3 C14")
